@@ -147,6 +147,10 @@ func genC14(r *PRNG, tier string) *Scenario {
 			}
 		}
 	}
+	if r.Chance(1, 4) {
+		// the system random source hands out its bytes in short reads (legal): keys must still be 16 random bytes
+		scn.HS.ShortRand = r.Range(1, 15)
+	}
 	scn.Net = NetCfg{DefCap: genCap(r)}
 	scn.Sched.IdleHorizon = 2000
 	return scn
@@ -251,6 +255,15 @@ func oracleC14(run *Run) {
 		kb, err := base64.StdEncoding.DecodeString(b.Key)
 		if err != nil || len(kb) != 16 || len(rq.Header["Sec-Websocket-Key"]) != 1 {
 			bad("key", "Sec-WebSocket-Key %q", rq.Header["Sec-Websocket-Key"])
+		}
+		if err == nil && len(kb) == 16 {
+			zeros := 0
+			for k := 15; k >= 0 && kb[k] == 0; k-- {
+				zeros++
+			}
+			if zeros >= 6 {
+				run.fail("C14", "key-not-random", "zero-tail", "%s: the last %d bytes of the 16-byte nonce are zero (the random source returned short reads of %d bytes): the key is not 16 random bytes", who, zeros, run.Scn.HS.ShortRand)
+			}
 		}
 		if prev, dup := keys[b.Key]; dup {
 			run.fail("C14", "key-reused", "reused", "%s sent the same Sec-WebSocket-Key as dial %d", who, prev)
